@@ -126,16 +126,16 @@ theorem C07_setup_partial (s : GameState) (hph : s.phase = .place) :
 /-! ## Non-vacuity -/
 
 /-- Gold elephant alone on e4. -/
-private def exB : Board := Board.new (sqBit 36) (sqBit 36) 0 0 0 0 0
+private def exB_C07 : Board := Board.new (sqBit 36) (sqBit 36) 0 0 0 0 0
 
 /-- mid-turn state (one step made) with actions: no result, list non-empty, pass offered -/
-private def ex1 : GameState :=
+private def ex1_C07 : GameState :=
   { p1Turn := true, moveNo := 2
-    phase := .play { prev := [exB], pps := .none, initHash := 1, hist := [], trapped := false }
-    board := exB, hash := 5 }
+    phase := .play { prev := [exB_C07], pps := .none, initHash := 1, hist := [], trapped := false }
+    board := exB_C07, hash := 5 }
 
-example : ex1.isTerminal = none ∧ ex1.validActions ≠ [] ∧ ex1.canPass true = true ∧
-    Action.pass ∈ ex1.validActions := by decide +kernel
+example : ex1_C07.isTerminal = none ∧ ex1_C07.validActions ≠ [] ∧ ex1_C07.canPass true = true ∧
+    Action.pass ∈ ex1_C07.validActions := by decide +kernel
 
 /-- mid-turn state where everything is withheld: empty board (no steps at all) and the pass would
 restore the turn-start position.  The offered list is empty, the rule-only list is not, and the
@@ -157,12 +157,12 @@ mirror tests `step < 3`) although the offered list is not empty (the filter test
 private def ex4 : GameState :=
   { p1Turn := true, moveNo := 2
     phase := .play
-      { prev := [exB, exB, exB, exB], pps := .none, initHash := zExcludeStep 5 4
+      { prev := [exB_C07, exB_C07, exB_C07, exB_C07], pps := .none, initHash := zExcludeStep 5 4
         hist := Dir_ALL.flatMap fun d =>
-          let h := zMovePiece 5 true exB 4 (exB.takeMove 36 d).1 0 false
+          let h := zMovePiece 5 true exB_C07 4 (exB_C07.takeMove 36 d).1 0 false
           [h, h]
         trapped := false }
-    board := exB, hash := 5 }
+    board := exB_C07, hash := 5 }
 
 example : ex4.hasMove ex4.board = some .silverWin ∧ ex4.validActions ≠ [] := by decide +kernel
 
